@@ -3,7 +3,7 @@
    returns the projected observables as byte strings.  Integers travel as 8-byte
    big-endian two's complement. *)
 From Gen Require Import Consts.
-From Model Require Import Bytes Entries Prim Tables ExtCrypto Cert KAC Mapping Sig LS RI Time Crypto Base Addr.
+From Model Require Import Bytes Entries Prim Tables ExtCrypto Cert KAC Mapping Sig LS RI Time Crypto Base Addr Heap.
 Open Scope N_scope.
 
 Definition argZ (b : bytes) : Z := wrap64 (Z.of_N (be_decode b)).
@@ -152,6 +152,20 @@ Definition run_struct (e : N) (a : list bytes) : option (res (list bytes)) :=
     Ok (ob (ra_host ra) ++ ob (ra_port ra) ++ [outB (ra_has_valid_host ra); outB (ra_has_valid_port ra); ra_ip_version ra]
         ++ ob (ra_fixed_key ra s_router_address_STATIC_KEY_OPTION_KEY c_router_address_STATIC_KEY_SIZE)
         ++ ob (ra_fixed_key ra s_router_address_INITIALIZATION_VECTOR_OPTION_KEY c_router_address_INITIALIZATION_VECTOR_SIZE)))
+  else if e =? E_AliasBytesChange then Some (do b <- bytes_change (argN a0) a1 (skipn 2 a); Ok [outB b])
+  else if e =? E_NewOfflineSignature then Some (
+    do o <- new_offline_signature (argN a0) (argN a1) (arg 2 a) (arg 3 a) (argN (arg 4 a));
+    Ok [off_bytes o; outB (off_validate_structure o)])
+  else if e =? E_NewKeysAndCertFromParts then Some (
+    (* key certificate bytes, public key (or empty = nil), padding, signing key (or empty = nil) *)
+    do kr <- new_key_certificate a0;
+    let ob (b : bytes) := match b with [] => None | _ => Some b end in
+    do k <- new_keys_and_cert (fst kr) (ob a1) (arg 2 a) (ob (arg 3 a));
+    match kac_bytes k with
+    | Ok b => Ok [outB (kac_validate k); b]
+    | Err => Ok [outB (kac_validate k); []]
+    | Panic => Panic
+    end)
   (* size/deny lookups on one 16-bit code (C09, C10 translation validation) *)
   else if e =? E_KCSizes then Some (let t := argZ a0 in
     Ok [optZ (kc_sig_size t); optZ (kc_spk_size t); optZ (kc_crypto_size t); optZ (kc_crypto_pub_sizes t); optZ (kc_sig_pub_sizes t)])
